@@ -1,2 +1,182 @@
--- placeholder driver (model for C04 not built yet)
-def main : IO Unit := pure ()
+/-
+  Driver for the class re-creation model (C04).  One request per line:
+
+    <op> <ser> <reg> <failspec> <node tokens…>
+      op        loads | call
+      ser       serpent | marshal | json | msgpack
+      reg       "-" or comma separated hex(utf-8) tags that have a registered converter
+      failspec  "-" (every external call succeeds) | ctor:<qualified class> | setattr | float | uri | mkset | exthook
+                (the external call that failed in the real run; all others succeed)
+      node      a0:<label> | a1:<label>            atom (falsy / truthy)
+                o0:<label> | o1:<label>            opaque leaf (frozenset …)
+                s:<hex utf-8>                      str          ("-" = empty)
+                b:<hex>                            bytes
+                l:<n> node*n | t:<n> … | e:<n> …   list / tuple / set
+                d:<n> (key node)*n                 dict;  key = ks:<hex utf-8> | ko:<label>
+                x:<code>:<rawlabel>:<convlabel>:<0|1>   msgpack extension value
+  Reply:  ok <rendering> <effects>   |   err <Enum> <effects>
+-/
+import PyroModel.Classes
+import Driver.Util
+
+open Pyro Pyro.Classes Driver
+
+def hexToStr (h : String) : Option Str := do
+  let bs ← hexToBytes h
+  let s ← String.fromUTF8? (ByteArray.mk bs.toArray)
+  pure s.toList
+
+def strToHex (s : Str) : String := bytesToHex (String.ofList s).toUTF8.toList
+
+def parseKey (t : String) : Option Key :=
+  if t.startsWith "ks:" then (hexToStr (t.drop 3).toString).map Key.str
+  else if t.startsWith "ko:" then some (Key.other (t.drop 3).toString)
+  else none
+
+mutual
+partial def parseVal : List String → Option (Val × List String)
+  | [] => none
+  | t :: rest =>
+    if t.startsWith "a0:" then some (.atom false (t.drop 3).toString, rest)
+    else if t.startsWith "a1:" then some (.atom true (t.drop 3).toString, rest)
+    else if t.startsWith "o0:" then some (.blob false (t.drop 3).toString, rest)
+    else if t.startsWith "o1:" then some (.blob true (t.drop 3).toString, rest)
+    else if t.startsWith "s:" then (hexToStr (t.drop 2).toString).map fun s => (.str s, rest)
+    else if t.startsWith "b:" then (hexToBytes (t.drop 2).toString).map fun b => (.bytes b, rest)
+    else if t.startsWith "l:" then do
+      let n ← (t.drop 2).toString.toNat?
+      let (xs, r) ← parseVals n rest
+      pure (.list xs, r)
+    else if t.startsWith "t:" then do
+      let n ← (t.drop 2).toString.toNat?
+      let (xs, r) ← parseVals n rest
+      pure (.tuple xs, r)
+    else if t.startsWith "e:" then do
+      let n ← (t.drop 2).toString.toNat?
+      let (xs, r) ← parseVals n rest
+      pure (.set xs, r)
+    else if t.startsWith "d:" then do
+      let n ← (t.drop 2).toString.toNat?
+      let (ks, vs, r) ← parseEntries n rest
+      pure (.dict ks vs, r)
+    else if t.startsWith "x:" then
+      match (t.drop 2).toString.splitOn ":" with
+      | [c, raw, conv, tr] => (c.toInt?).map fun code => (.ext code raw conv (tr == "1"), rest)
+      | _ => none
+    else none
+partial def parseVals : Nat → List String → Option (List Val × List String)
+  | 0, r => some ([], r)
+  | n + 1, r => do
+    let (v, r1) ← parseVal r
+    let (vs, r2) ← parseVals n r1
+    pure (v :: vs, r2)
+partial def parseEntries : Nat → List String → Option (List Key × List Val × List String)
+  | 0, r => some ([], [], r)
+  | _ + 1, [] => none
+  | n + 1, k :: r => do
+    let key ← parseKey k
+    let (v, r1) ← parseVal r
+    let (ks, vs, r2) ← parseEntries n r1
+    pure (key :: ks, v :: vs, r2)
+end
+
+def pyroName : PyroCls → String
+  | .uri => "Pyro5.core.URI"
+  | .proxy => "Pyro5.client.Proxy"
+  | .daemon => "Pyro5.server.Daemon"
+  | .wrapper => "Pyro5.core._ExceptionWrapper"
+  | .serpentSer => "Pyro5.serializers.SerpentSerializer"
+  | .marshalSer => "Pyro5.serializers.MarshalSerializer"
+  | .jsonSer => "Pyro5.serializers.JsonSerializer"
+  | .msgpackSer => "Pyro5.serializers.MsgpackSerializer"
+
+def clsName : Cls → String
+  | .pyro c => pyroName c
+  | .exc q => String.ofList q
+  | .custom t => "custom:" ++ strToHex t
+
+def renderKey : Key → String
+  | .str s => "S" ++ strToHex s
+  | .other l => "O" ++ l
+
+mutual
+partial def render : Val → String
+  | .atom _ l => "A" ++ l
+  | .blob _ l => "A" ++ l
+  | .str s => "S" ++ strToHex s
+  | .bytes b => "B" ++ bytesToHex b
+  | .list xs => "L[" ++ renderList xs ++ "]"
+  | .tuple xs => "T[" ++ renderList xs ++ "]"
+  | .set xs => "E[" ++ renderList xs ++ "]"
+  | .dict ks vs => "D[" ++ ",".intercalate ((ks.zip vs).map fun (k, v) => renderKey k ++ "=" ++ render v) ++ "]"
+  | .ext _ raw _ _ => "A" ++ raw
+  | .inst (.pyro .proxy) ps => "I" ++ pyroName .proxy ++ "(" ++ renderList (ps.drop 4) ++ ")"
+  | .inst c ps => "I" ++ clsName c ++ "(" ++ renderList ps ++ ")"
+partial def renderList (xs : List Val) : String := ",".intercalate (xs.map render)
+end
+
+def renderErr : Err → String
+  | .security => "Security"
+  | .serialize => "Serialize"
+  | .lookup => "Lookup"
+  | .typeAttr => "TypeAttr"
+  | .value => "Value"
+  | .assertion => "Assertion"
+  | .ext .ctor => "ext:ctor"
+  | .ext .setattr => "ext:setattr"
+  | .ext .float => "ext:float"
+  | .ext .uri => "ext:uri"
+  | .ext .mkset => "ext:mkset"
+  | .ext .exthook => "ext:exthook"
+  | .unmodelled => "Unmodelled"
+  | .fuel => "Fuel"
+
+def renderEffect : Effect → String
+  | .convert t => "conv:" ++ strToHex t
+  | .construct c => "new:" ++ clsName c
+  | .getattrMod m _ => "get:" ++ String.ofList m
+  | .importMod m => "imp:" ++ String.ofList m
+  | .setattr _ _ => "set"
+  | .pureCall w => "pure:" ++ w
+  | .logWarn => "warn"
+
+def mkExt (spec : String) : Ext where
+  ctorOk := fun c _ => !(spec == "ctor:" ++ clsName c)
+  setattrOk := fun _ _ _ => spec != "setattr"
+  floatOk := fun _ => spec != "float"
+  uriOk := fun _ => spec != "uri"
+  setOk := fun _ => spec != "mkset"
+  extOk := fun _ _ => spec != "exthook"
+
+def parseSer : String → Option Ser
+  | "serpent" => some .serpent
+  | "marshal" => some .marshal
+  | "json" => some .json
+  | "msgpack" => some .msgpack
+  | _ => none
+
+def parseReg (s : String) : Option (List Str) :=
+  if s == "-" then some [] else (s.splitOn ",").mapM hexToStr
+
+def callExtHook : Bool := Pyro.Gen.C04.msgpackLoadsCallKw.contains "ext_hook=self.ext_hook"
+
+def step : List String → String
+  | op :: ser :: reg :: spec :: toks =>
+    match parseSer ser, parseReg reg, parseVal toks with
+    | some s, some r, some (v, []) =>
+      let E : Env := { reg := r, ext := mkExt spec }
+      let out : Option (M Val) :=
+        if op == "loads" then some (loads E s (fuelFor v) v)
+        else if op == "call" then some (loadsCall E callExtHook s (fuelFor v) v)
+        else none
+      match out with
+      | none => "bad-op"
+      | some (res, log) =>
+        let fx := if log.isEmpty then "-" else ",".intercalate (log.map renderEffect)
+        match res with
+        | .ok w => "ok " ++ render w ++ " " ++ fx
+        | .error e => "err " ++ renderErr e ++ " " ++ fx
+    | _, _, _ => "bad-line"
+  | _ => "bad-line"
+
+def main : IO Unit := runDriver step
